@@ -106,6 +106,8 @@ impl MT941 {
         // Parse optional information field
         let field_86 = parser.parse_optional_field::<Field86>("86")?;
 
+        crate::parser::utils::verify_parser_complete(&parser)?;
+
         Ok(MT941 {
             field_20,
             field_21,
